@@ -21,6 +21,8 @@ import (
 	"seehuhn.de/go/pdf"
 	"seehuhn.de/go/pdf/font/cmap"
 	"seehuhn.de/go/pdf/font/mapping"
+	"seehuhn.de/go/pdf/graphics/extract"
+	"seehuhn.de/go/postscript/cid"
 	"verif/sim/core"
 	"verif/sim/gen"
 	"verif/sim/props/c18doc"
@@ -625,6 +627,68 @@ func (w *world) opOtherFile(tk int, seed int) {
 var cmapNames = []string{"Identity-H", "UniJIS-UCS2-H", "90ms-RKSJ-H", "GBK-EUC-H", "no-such-cmap"}
 var orderings = [][2]string{{"Adobe", "Japan1"}, {"Adobe", "GB1"}, {"Adobe", "Nope"}}
 
+// The character collections of the predefined CMaps used here (Adobe
+// Technical Note 5094 / ISO 32000 table of predefined CMaps): what a shared,
+// package-level CMap object must keep saying whatever any Reader decoded.
+var cmapCollection = map[string]string{"Identity-H": "Identity", "UniJIS-UCS2-H": "Japan1", "90ms-RKSJ-H": "Japan1", "GBK-EUC-H": "GB1"}
+
+var cmapSupplement = map[string]int32{}
+
+// fontGetter is a minimal in-memory file holding one composite font.
+type fontGetter struct {
+	meta pdf.MetaInfo
+	objs map[pdf.Reference]pdf.Native
+}
+
+func (g *fontGetter) GetMeta() *pdf.MetaInfo { return &g.meta }
+func (g *fontGetter) Get(ref pdf.Reference, _ bool) (pdf.Native, error) {
+	return g.objs[ref], nil
+}
+
+// opFontRepair lets an independent reader decode a composite font whose
+// CIDSystemInfo disagrees with the character collection of the predefined CMap
+// it names.  Whatever the reader does to make sense of it must stay in its own
+// decoded font: the predefined CMap is shared by the whole process.
+func (w *world) opFontRepair(tk int, i int) {
+	names := []string{"UniJIS-UCS2-H", "90ms-RKSJ-H", "GBK-EUC-H"}
+	name := names[i%len(names)]
+	ordering := []string{"Korea1", "Japan1", "GB1", "CNS1"}[(i/3)%4]
+	sub := []pdf.Name{"CIDFontType0", "CIDFontType2"}[(i/12)%2]
+	fontRef, cidRef, fdRef := pdf.NewReference(1, 0), pdf.NewReference(2, 0), pdf.NewReference(3, 0)
+	g := &fontGetter{meta: pdf.MetaInfo{Version: pdf.V1_7}, objs: map[pdf.Reference]pdf.Native{
+		fontRef: pdf.Dict{"Type": pdf.Name("Font"), "Subtype": pdf.Name("Type0"), "BaseFont": pdf.Name("Test-" + name), "Encoding": pdf.Name(name), "DescendantFonts": pdf.Array{cidRef}},
+		cidRef: pdf.Dict{"Type": pdf.Name("Font"), "Subtype": sub, "BaseFont": pdf.Name("Test"),
+			"CIDSystemInfo":  pdf.Dict{"Registry": pdf.String("Adobe"), "Ordering": pdf.String(ordering), "Supplement": pdf.Integer(0)},
+			"FontDescriptor": fdRef},
+		fdRef: pdf.Dict{"Type": pdf.Name("FontDescriptor"), "FontName": pdf.Name("Test"), "Flags": pdf.Integer(4),
+			"FontBBox": pdf.Array{pdf.Integer(0), pdf.Integer(0), pdf.Integer(1000), pdf.Integer(1000)}, "ItalicAngle": pdf.Integer(0),
+			"Ascent": pdf.Integer(800), "Descent": pdf.Integer(-200), "CapHeight": pdf.Integer(700), "StemV": pdf.Integer(80)},
+	}}
+	x := pdf.NewExtractor(g)
+	w.s.Yield("before font decode")
+	_, err := pdf.Decode(pdf.CursorAt(x, nil), fontRef, extract.Font)
+	w.s.Yield("after font decode")
+	w.note(tk, "fontrepair %s/%s/%s err=%v", name, ordering, sub, err)
+	w.e.Probe("independent reader decoded a font with a mismatching character collection")
+	w.checkPredefined(name)
+}
+
+func (w *world) checkPredefined(name string) {
+	want, known := cmapCollection[name]
+	f, err := cmap.Predefined(name)
+	if !known || err != nil || f == nil {
+		return
+	}
+	if f.ROS == nil || f.ROS.Registry != "Adobe" || f.ROS.Ordering != want {
+		w.fail("package-state", map[string]string{"op": "cmap"}, "the shared predefined CMap %s now claims the character collection %v (Adobe-%s expected): package-level state was modified", name, f.ROS, want)
+		// put the shared object right again, so that the runs and shrink
+		// candidates that follow in this process are judged on their own
+		f.ROS = &cid.SystemInfo{Registry: "Adobe", Ordering: want, Supplement: cmapSupplement[name]}
+		return
+	}
+	cmapSupplement[name] = f.ROS.Supplement
+}
+
 func (w *world) opCMap(tk int, i int) {
 	name := cmapNames[i%len(cmapNames)]
 	f1, err1 := cmap.Predefined(name)
@@ -634,6 +698,7 @@ func (w *world) opCMap(tk int, i int) {
 	if (err1 == nil) != (err2 == nil) || f1 != f2 {
 		w.fail("package-cache", map[string]string{"op": "cmap"}, "cmap.Predefined(%q) returned different results: %p,%v and %p,%v", name, f1, err1, f2, err2)
 	}
+	w.checkPredefined(name)
 	o := orderings[i%len(orderings)]
 	m1, err1 := mapping.GetCIDTextMapping(o[0], o[1])
 	m2, err2 := mapping.GetTextToCIDMapping(o[0], o[1])
@@ -710,6 +775,9 @@ func Run(e *core.Env) {
 				}
 			default:
 				o.kind, o.n = "cmap", t.Draw(l+".cm", 15)
+				if t.Bool(l+".fontrepair", 1, 2) {
+					o.kind, o.n = "fontrepair", t.Draw(l+".fr", 24)
+				}
 			}
 			plans[i] = append(plans[i], o)
 			desc = append(desc, fmt.Sprintf("t%d:%s(x%d,%d,%s,nest=%v,fail=%v)", i, o.kind, o.x, o.ref.Number(), o.tp, o.nest, o.fail))
@@ -772,6 +840,8 @@ func Run(e *core.Env) {
 						w.opBadStream(i, o.ref)
 					case "cmap":
 						w.opCMap(i, o.n)
+					case "fontrepair":
+						w.opFontRepair(i, o.n)
 					}
 				}
 			})
